@@ -176,6 +176,29 @@ pub fn check_user_positions(name: &str, text: &str, dir: &Path, case: &Value) ->
         exp.sort();
         let mut got: Vec<String> = results.iter().flat_map(|r| r.locations.iter().map(move |l| format!("{}@{}:{}-{}:{}", r.rule_id, l.1, l.2, l.3, l.4))).collect();
         got.sort();
+        // Secondary labels are the related locations of the result, all of them.
+        let mut exp_rel: Vec<String> = a
+            .findings
+            .iter()
+            .flat_map(|f| f.secondary.iter().map(move |l| (f, l)))
+            .map(|(f, l)| {
+                let (sl, sc) = line_col(text, l.start);
+                let (el, ec) = line_col(text, l.end);
+                format!("{}@{sl}:{sc}-{el}:{ec}", f.id)
+            })
+            .collect();
+        exp_rel.sort();
+        let mut got_rel: Vec<String> = results.iter().flat_map(|r| r.related.iter().map(move |l| format!("{}@{}:{}-{}:{}", r.rule_id, l.1, l.2, l.3, l.4))).collect();
+        got_rel.sort();
+        if exp_rel != got_rel {
+            out.push(Violation {
+                signature: "sarif-related-region".into(),
+                what: format!("corpus {name}: the related locations in SARIF are not exactly the secondary labels of the findings"),
+                case: case.clone(),
+                expected: format!("{exp_rel:?}"),
+                observed: format!("{got_rel:?}"),
+            });
+        }
         if exp != got {
             out.push(Violation {
                 signature: "sarif-region".into(),
